@@ -101,6 +101,28 @@ def setup(world):
     for nm in ('keys', 'delete_function', 'register_function'):
         world.opaque_sig(nm, 'Val', log=True)
 
+    # `del ctx[name]` / `name in ctx` / `ctx[name] = v` on another context:
+    # behaviour prescribed by the Context contracts above (KeyError iff its
+    # own layer does not define the name)
+    def delitem(obj, idx, it, node):
+        if isinstance(obj, SVal):
+            nt = TStr.unwrap(idx)
+            missing = own(obj.t, nt) == S.named_const('NO_VALUE')
+            it.calls.append(('delitem', (obj, idx), None))
+            if it.branch(missing):
+                it.raise_('KeyError', idx, node=node)
+            return True
+        return NotImplemented
+    world.delitem_hooks = [delitem]
+
+    def contains(op, a, b, it):
+        if op == 'in' and isinstance(a, SVal) and isinstance(
+                b, (SStr, str)):
+            return SBool(own(a.t, TStr.unwrap(b)) !=
+                         S.named_const('NO_VALUE'))
+        return NotImplemented
+    world.binop_models.append(contains)
+
 
 NORM = '("$1" if (name if name.startswith("$") else "$" + name) == "$" ' \
        'else (name if name.startswith("$") else "$" + name))'
@@ -202,6 +224,33 @@ def contracts():
               'self._parent_context', 'name', 'default') + ')',
           'implies(ufn("ctx.own", self.linked_context, name) is NV and '
           'not ask_parent, result == default)'])
+    # ---- MultiContext writes: the merged own layer ------------------------
+    c('MultiContext.__setitem__',
+      params=dict(self=mctx, name=TStr, value=TVal),
+      requires=mpre + ['len(self._context_list) >= 1'],
+      ensures=['len(calls) == 1 and calls[0][0] == "setitem" and '
+               'calls[0][1][0] == self._context_list[0] and '
+               'calls[0][1][1] == name and calls[0][1][2] == value'])
+    c('MultiContext.__delitem__', params=dict(self=mctx, name=TStr),
+      requires=mpre, env={'NV': NV},
+      # deleting a variable of the merged layer removes it from every
+      # member that defines it; KeyError only if no member does
+      raises={'KeyError': 'forall(range(0, len(self._context_list)), '
+              'lambda j: ' + OWN % 'j' + ' is NV)'},
+      ensures=['exists(range(0, len(self._context_list)), lambda j: '
+               + OWN % 'j' + ' is not NV)'],
+      loops=[dict(anchor='for context in self._context_list', index='n',
+                  invariant=['found == exists(range(0, n), lambda j: '
+                             + OWN % 'j' + ' is not NV)'])])
+    c('MultiContext.__contains__', name='contexts.MultiContext.__contains__',
+      params=dict(self=mctx, item=TStr), requires=mpre, env={'NV': NV},
+      ensures=['result == exists(range(0, len(self._context_list)), '
+               'lambda j: ufn("ctx.own", self._context_list[j], item) '
+               'is not NV)'],
+      loops=[dict(anchor='for context in self._context_list', index='n',
+                  invariant=['forall(range(0, n), lambda j: '
+                             'ufn("ctx.own", self._context_list[j], item) '
+                             'is NV)'])])
     # ---- functions -----------------------------------------------------
     LAYER = 'ufn("ctx.layer", %s, name, val(predicate), use_convention)'
     EXCL = 'ufn("ctx.excl", %s, name, use_convention, ret="Bool")'
@@ -236,5 +285,45 @@ def contracts():
                       'implies(is_exclusive, exists(range(0, n), lambda j: '
                       + EXCL % 'self._context_list[j]' + '))'],
                   havoc={'result': 'SSet'})],
+      serves=('C17', 'C05'))
+    # ---- collect_functions: layers from the nearest outward, non-empty
+    # ones only, stopping AFTER a layer that registered the name exclusively
+    LAY = 'ufn("ctx.layer", %s, name, PK, use_convention)'
+    EXC = 'ufn("ctx.excl", %s, name, use_convention, ret="Bool")'
+    CL = 'ufn("coll.len", %s, ret="Int")'
+    CA = 'ufn("coll.at", %s, %s)'
+    REST = 'ite(%s, None, ufn("ctx.parent", c))' % (EXC % 'c')
+    NE = 'ite(truthy(%s), 1, 0)' % (LAY % 'c')
+    c('ContextBase.collect_functions',
+      params=dict(self=TVal, name=TStr, predicate=None, use_convention=TBool),
+      env={'PK': None},
+      requires=[
+          'ufn("ctx.is", self, ret="Bool")',
+          # recursive definition of the expected result (spec function)
+          CL % 'None' + ' == 0',
+          'forall(Val, lambda c: implies(ufn("ctx.is", c, ret="Bool"), '
+          + CL % 'c' + ' == ' + NE + ' + ' + CL % ('(' + REST + ')')
+          + ' and ' + CL % 'c' + ' >= 0))',
+          'forall(Val, lambda c: implies(ufn("ctx.is", c, ret="Bool") and '
+          'truthy(' + LAY % 'c' + '), ' + CA % ('c', '0') + ' == '
+          + LAY % 'c' + '))',
+          'forall(Val, lambda c: forall(Int, lambda k: implies('
+          'ufn("ctx.is", c, ret="Bool") and k >= ' + NE + ', '
+          + CA % ('c', 'k') + ' == ' + CA % ('(' + REST + ')',
+                                            'k - ' + NE) + ')))'],
+      ensures=['len(result) == ' + CL % 'self',
+               'forall(range(0, len(result)), lambda k: result[k] == '
+               + CA % ('self', 'k') + ')'],
+      loops=[dict(anchor='while p is not None', invariant=[
+          'p is None or ufn("ctx.is", p, ret="Bool")',
+          'len(overloads) + ' + CL % 'p' + ' == ' + CL % 'self',
+          'forall(range(0, len(overloads)), lambda k: overloads[k] == '
+          + CA % ('self', 'k') + ')',
+          'forall(Int, lambda k: implies(len(overloads) <= k and k < '
+          + CL % 'self' + ', ' + CA % ('self', 'k') + ' == '
+          + CA % ('p', 'k - len(overloads)') + '))'],
+          havoc={'overloads': TSeq(TVal), 'p': TVal,
+                 'context_predicate': TVal, 'layer_overloads': TVal,
+                 'is_exclusive': TBool})],
       serves=('C17', 'C05'))
     return cs
